@@ -371,6 +371,12 @@ def gen_cases(rng, repo, n_sampled, n_pairs):
             continue
         t = rng.choice(targets)
         cases.append({'specs': [a, b], 'target_loc': t, 'target': by_loc[t]['name']})
+    # an UNFILTERED restore needs the newest snapshot: damage to that object must not silently yield the older versions
+    newest = targets[-1]
+    for spec in singles:
+        # (a REMOVED snapshot object is indistinguishable from a snapshot never taken: the restore does not need it)
+        if (spec.get('o') == newest or spec.get('p') == newest) and not kind_of({'specs': [spec]}).startswith('delete'):
+            cases.append({'specs': [spec], 'target_loc': newest, 'target': None, 'oracle_only': True})
     return cases
 
 
@@ -468,7 +474,7 @@ def check_repo(ctx, rep: Report, repo, cases, with_model=True):
         rep.case((repo['rid'], json.dumps(case['specs'], sort_keys=True), case['target']), nontrivial=nontrivial)
         rep.sample({'repository': f'{mode}/{repo["backend"]}',
                     'corruption': [{k: (v[:28] + '...' if isinstance(v, str) and len(v) > 31 else v) for k, v in sp.items()} for sp in case['specs']],
-                    'restore': case['target'][:16] + '...',
+                    'restore': (case['target'][:16] + '...') if case['target'] else 'unfiltered (newest version of every path)',
                     'implementation': r['cls'], 'model': ERR_CODE[m[0]] if m is not None else None})
         # ---- C: the oracle
         if r['cls'] == 'Ok':
